@@ -126,6 +126,11 @@ InitLine(line) ==
         /\ peerLog = <<>> /\ cnt = Cnt0 /\ act = [a |-> "Init"]
 Init == InitLine(<<>>)
 
+\* the two variants of the machine over the same variables
+AsBuiltFlags == {"NoNack", "QuoteHash", "NoNotif", "NoUnescape", "FullKills", "LastAckIgnored"}
+RspIdeal   == flags = {}                 \* what the property demands
+RspAsBuilt == flags \subseteq AsBuiltFlags \* rsp.py today: the subset found by the probes of engines/c35.py
+
 LockFree == \A c \in Clients : cl[c].st # "wait"
 Returned == {"out", "done", "failed", "timeout"}
 
